@@ -3,6 +3,7 @@
   (first layer: the cursor of the injector state machine)
 -/
 import MotoModel.Proofs.DiskSector
+import MotoModel.Proofs.DiskHistory
 namespace Moto.C10
 open Moto Moto.Disk
 
@@ -111,5 +112,26 @@ theorem always_saved (fl : Flavour) (w : Tape.World) (verbose : Bool) (archive :
     cases hp : performCore w verbose img srcs with
     | error e => rw [hp] at h; obtain ⟨e1, o⟩ := e; simp at h
     | ok st => exact ⟨_, rfl⟩
+
+/-- **C10 (the image is still written and every side remains a valid file system)**: on a
+    consistent four-sided image, whatever the batch — sources dropped after the fourth side, files
+    refused on every side, markers beyond the last side — the invocation returns 0 and writes
+    exactly one archive, the serialisation of four consistent sides. -/
+theorem always_completes (fl : Flavour) (w : Tape.World) (verbose : Bool) (archive : Str) (img : Image) (srcs : List Str)
+    (himg : ImgOk img) (hs : ∀ src ∈ srcs, CleanSrc src) :
+    ∃ img', ImgOk img' ∧ (performOn fl w verbose archive img srcs).status = .ret 0
+      ∧ (performOn fl w verbose archive img srcs).writes = [(archive, save fl img')] := by
+  obtain ⟨st, hst, hok⟩ := performCore_ok w verbose img srcs himg hs
+  refine ⟨st.img, hok, ?_, ?_⟩
+  · unfold performOn
+    rw [if_neg (by rw [himg.1]; omega), hst]
+  · unfold performOn
+    rw [if_neg (by rw [himg.1]; omega), hst]
+
+theorem create_always_completes (fl : Flavour) (w : Tape.World) (verbose : Bool) (archive : Str) (srcs : List Str)
+    (hs : ∀ src ∈ srcs, CleanSrc src) :
+    ∃ img', ImgOk img' ∧ (create fl w verbose archive srcs).status = .ret 0
+      ∧ (create fl w verbose archive srcs).writes = [(archive, save fl img')] :=
+  always_completes fl w verbose archive _ srcs fresh_img_ok hs
 
 end Moto.C10
